@@ -64,6 +64,7 @@ func checkC09(c *C09Case, st *VStats) *VFailure {
 	var api []Triple
 	var apiX []XTriple    // (W, dir, "entire-cluster" | "potential", conn)
 	var apiXIPs []XTriple // IP lines repeated in exposure sections of tabular formats
+	var apiXFull []apiXEntry
 	var apiUnprot []string
 	var parsed = map[string]*ParsedList{}
 	for _, f := range listFormats {
@@ -101,6 +102,9 @@ func checkC09(c *C09Case, st *VStats) *VFailure {
 								des = "entire-cluster"
 							}
 							apiX = append(apiX, XTriple{ep.Peer, dd.dir, des, e.Conn.Raw})
+							if !e.Entire {
+								apiXFull = append(apiXFull, apiXEntry{ep.Peer, dd.dir, e.Conn.Raw, e.Ns, e.Pod})
+							}
 						}
 					}
 				}
@@ -152,6 +156,13 @@ func checkC09(c *C09Case, st *VStats) *VFailure {
 			}
 		} else if p.HasExposure {
 			return vfail("format %s has an exposure section although exposure analysis is off", f)
+		}
+	}
+	// the designation of every potential-peer entry names the selectors the analysis returned: every label key and
+	// value of the entry's namespace and pod selectors occurs in the designation text (checked by content, not wording)
+	if c.Exposure {
+		if f := designationsNameSelectors(apiXFull, parsed["txt"].Exposure); f != nil {
+			return f
 		}
 	}
 	// parsing any format back yields the same relation as every other format (incl. designations)
@@ -256,6 +267,86 @@ func checkC09(c *C09Case, st *VStats) *VFailure {
 	}
 	if nontrivial {
 		st.NonTrivialCase(c)
+	}
+	return nil
+}
+
+type apiXEntry struct {
+	W, Dir, Conn string
+	Ns, Pod      Selector
+}
+
+func selTokens(s *Selector) []string {
+	var ts []string
+	for k, v := range s.MatchLabels {
+		ts = append(ts, k, v)
+	}
+	for _, e := range s.Exprs {
+		ts = append(ts, e.Key)
+		ts = append(ts, e.Values...)
+	}
+	return ts
+}
+
+// designationsNameSelectors: for every potential-peer entry returned by the analysis there is an encoded entry of the
+// same workload, direction and connection whose designation contains every label key and value of its selectors; the
+// matching is injective (two returned entries need two encoded ones).
+func designationsNameSelectors(api []apiXEntry, enc []XTriple) *VFailure {
+	// compat[i] = encoded entries that may stand for returned entry i
+	compat := make([][]int, len(api))
+	for ai, a := range api {
+		nsTok, podTok := selTokens(&a.Ns), selTokens(&a.Pod)
+		for i, x := range enc {
+			if x.W != a.W || x.Dir != a.Dir || x.Conn != a.Conn || x.Peer == "entire-cluster" {
+				continue
+			}
+			parts := strings.SplitN(x.Peer, " || ", 2)
+			if len(parts) != 2 {
+				continue
+			}
+			ok := true
+			for _, t := range nsTok {
+				// a namespace selector that is only the name label is printed as the bare name
+				if t == nsNameKey && !strings.Contains(parts[0], t) && len(a.Ns.MatchLabels) == 1 && len(a.Ns.Exprs) == 0 {
+					continue
+				}
+				if !strings.Contains(parts[0], t) {
+					ok = false
+				}
+			}
+			for _, t := range podTok {
+				if !strings.Contains(parts[1], t) {
+					ok = false
+				}
+			}
+			if ok {
+				compat[ai] = append(compat[ai], i)
+			}
+		}
+	}
+	// injective assignment by augmenting paths (the sets are small)
+	matchOf := make([]int, len(enc))
+	for i := range matchOf {
+		matchOf[i] = -1
+	}
+	var try func(ai int, seen []bool) bool
+	try = func(ai int, seen []bool) bool {
+		for _, i := range compat[ai] {
+			if seen[i] {
+				continue
+			}
+			seen[i] = true
+			if matchOf[i] < 0 || try(matchOf[i], seen) {
+				matchOf[i] = ai
+				return true
+			}
+		}
+		return false
+	}
+	for ai, a := range api {
+		if !try(ai, make([]bool, len(enc))) {
+			return vfail("txt: no exposure line of %s (%s, %s) names the selectors the analysis returned: namespace %+v pod %+v; encoded entries: %v", a.W, a.Dir, a.Conn, a.Ns, a.Pod, enc)
+		}
 	}
 	return nil
 }
